@@ -197,10 +197,18 @@ func (r *Report) Cap(s string) {
 }
 func (r *Report) Bound(k string, v any) { r.mu.Lock(); r.bounds[k] = v; r.mu.Unlock() }
 func (r *Report) Note(s string)         { r.mu.Lock(); r.notes = append(r.notes, s); r.mu.Unlock() }
-func (r *Report) Assume(s string)       { r.mu.Lock(); r.assumptions = append(r.assumptions, s); r.mu.Unlock() }
-func (r *Report) Config(s string)       { r.mu.Lock(); r.configs = append(r.configs, s); r.mu.Unlock() }
-func (r *Report) Rule(s string)         { r.mu.Lock(); r.rule = s; r.mu.Unlock() }
-func (r *Report) SkipHook(s string)     { r.mu.Lock(); r.skippedHooks = append(r.skippedHooks, s); r.mu.Unlock() }
+func (r *Report) Assume(s string) {
+	r.mu.Lock()
+	r.assumptions = append(r.assumptions, s)
+	r.mu.Unlock()
+}
+func (r *Report) Config(s string) { r.mu.Lock(); r.configs = append(r.configs, s); r.mu.Unlock() }
+func (r *Report) Rule(s string)   { r.mu.Lock(); r.rule = s; r.mu.Unlock() }
+func (r *Report) SkipHook(s string) {
+	r.mu.Lock()
+	r.skippedHooks = append(r.skippedHooks, s)
+	r.mu.Unlock()
+}
 
 // NumViolations returns how many distinct violations have been recorded.
 func (r *Report) NumViolations() int { r.mu.Lock(); defer r.mu.Unlock(); return len(r.violations) }
